@@ -223,7 +223,13 @@ func newMachine(rt *rapid.T, o machineOpts) *machine {
 			}
 		}
 	}
-	w, err := NewWorld(rt, sources, m.decls)
+	var wopts []WorldOpt
+	if rapid.IntRange(0, 3).Draw(rt, "integrationsindb") == 0 {
+		// the integrations were added through the dashboard: loaded from shovel.integrations at every start
+		wopts = append(wopts, WithStoredIntegrations())
+		m.label("integrations-in-db")
+	}
+	w, err := NewWorld(rt, sources, m.decls, wopts...)
 	m.w = w
 	if err != nil {
 		if w != nil {
